@@ -240,6 +240,37 @@ def fingerprint_loops(gb, functions, tmp):
     return res
 
 
+
+def gen_auto_twin(proof, tmp):
+    """The function under contract became recursive (DFCC refuses that: no_recursive_call).  Generate the declaration of an
+    induction-hypothesis twin f__rec carrying a verbatim copy of f's contract, taken from the contract headers."""
+    f = proof["auto_twin"]
+    rx = re.compile(r"^[A-Za-z_][^\n;{}#]*\b" + re.escape(f) + r"\s*\(", re.M)
+    for h in proof.get("contracts", []):
+        text = open(os.path.join(VERIF, h)).read()
+        m = rx.search(text)
+        if not m:
+            continue
+        depth, i = 0, m.start()
+        while i < len(text):
+            c = text[i]
+            if c == "(":
+                depth += 1
+            elif c == ")":
+                depth -= 1
+            elif c == ";" and depth == 0:
+                break
+            elif c == "{" and depth == 0:
+                return None
+            i += 1
+        decl = text[m.start():i + 1]
+        decl = re.sub(r"\b" + re.escape(f) + r"(\s*\()", f + r"__rec\1", decl, count=1)
+        out = os.path.join(tmp, "auto_twin.h")
+        with open(out, "w") as fh:
+            fh.write("/* generated: induction-hypothesis twin of %s (verbatim copy of its contract from %s) */\n%s\n" % (f, h, decl))
+        return out
+    return None
+
 def build_proof(proof, tmp, log):
     """Returns path of the instrumented goto binary."""
     gen = os.path.join(tmp, "gen")
@@ -254,6 +285,12 @@ def build_proof(proof, tmp, log):
     includes = []
     for h in proof.get("contracts", []):
         includes += ["-include", os.path.join(VERIF, h)]
+    auto_twin = proof.get("auto_twin")
+    if auto_twin:
+        h = gen_auto_twin(proof, tmp)
+        if not h:
+            raise Undecided("no contract declaration of %s found to generate the recursion twin from" % auto_twin)
+        includes += ["-include", h]
     libs = [os.path.join(SRC, f) for f in proof.get("lib", [])]
     for f in libs:
         if not os.path.exists(f):
@@ -296,7 +333,18 @@ def build_proof(proof, tmp, log):
             f.write("void *verif_twin_ref_%d(void) { return (void*)&%s; }\n" % (i, t))
     trap = [os.path.join(VERIF, "stubs", "libc_trap.c")] if libs else []
     # stage 2: one link of library objects, stubs (compiled without the renames), twin references and harness
-    if twins:
+    if auto_twin:
+        # recursion fallback: the calls of f inside the LIBRARY go to the generated twin f__rec (replaced by its contract =
+        # induction hypothesis); the harness is linked afterwards, so its call is the only one reaching the real f
+        with open(twin_stub, "a") as f:
+            f.write("void *verif_auto_twin_ref(void) { return (void*)&%s__rec; }\n" % auto_twin)
+        a0 = os.path.join(tmp, "a0.gb")
+        a1 = os.path.join(tmp, "a1.gb")
+        run(["goto-cc"] + defs + incs + includes + objs + extra + trap + [twin_stub, "-o", a0], "goto-cc (library link)")
+        run(["goto-instrument", "--replace-calls", "%s:%s__rec" % (auto_twin, auto_twin), a0, a1],
+            "goto-instrument --replace-calls (generated twin)")
+        run(["goto-cc"] + defs + incs + includes + ["--function", entry, a1, harness, "-o", a], "goto-cc (harness link)")
+    elif twins:
         a0 = os.path.join(tmp, "a0.gb")
         a1 = os.path.join(tmp, "a1.gb")
         run(["goto-cc"] + defs + incs + includes + ["--function", entry] + objs + extra + trap + [twin_stub, harness, "-o", a0],
@@ -335,6 +383,8 @@ def build_proof(proof, tmp, log):
         cmd += ["--enforce-contract", proof["enforce"]]
     for r in proof.get("replace", []):
         cmd += ["--replace-call-with-contract", r]
+    if auto_twin:
+        cmd += ["--replace-call-with-contract", auto_twin + "__rec"]
     if proof.get("loops"):
         cmd += ["--apply-loop-contracts", "--loop-contracts-file", os.path.join(VERIF, proof["loops"])]
     elif proof.get("inline_loop_contracts"):
@@ -466,6 +516,40 @@ def trace_inputs(trace):
 
 
 def run_proof(proof, tier, keep=False, backend=None):
+    """Build + verify one registry entry; recursion fallback: when DFCC's structural check no_recursive_call fails (the
+    function under contract became recursive, which voids the proof), the proof is re-run once with the library's calls
+    of the function redirected to a generated twin carrying a verbatim copy of its contract (induction hypothesis), new
+    loops cut at a small bound without unwinding assertions.  Only counterexamples of that re-run are used; when it finds
+    none the original (void) result stands and the check stays UNDECIDED."""
+    res = _run_proof_once(proof, tier, keep=keep, backend=backend)
+    f = proof.get("enforce")
+    if not f or proof.get("twins") or proof.get("auto_twin") or res.get("undecided"):
+        return res
+    if not any("no_recursive_call" in ob["name"] and ob["status"] == "FAILURE" for ob in res["obligations"]):
+        return res
+    p2 = dict(proof)
+    p2["auto_twin"] = f
+    for k in ("loops", "loop_fingerprint", "unwindset", "inline_loop_contracts"):
+        p2.pop(k, None)
+    p2["unwind"] = 4
+    p2["cbmc_flags"] = [x for x in proof.get("cbmc_flags", STD_CHECKS) if x != "--unwinding-assertions"] + ["--no-unwinding-assertions"]
+    p2["must_exist"] = []
+    p2["min_covers"] = 0
+    p2["object_bits"] = max(12, proof.get("object_bits", 0) or 0)
+    r2 = _run_proof_once(p2, tier, keep=keep, backend=backend)
+    hard = [ob for ob in r2["obligations"] if ob["status"] == "FAILURE" and ob["kind"] not in ("cover", "spec_safety", "unwind", "other")]
+    if r2.get("undecided") or not hard:
+        res["log"] = res.get("log", []) + ["RECURSION FALLBACK gave no counterexample: " + str(r2.get("undecided"))]
+        return res
+    for ob in hard:
+        ob["desc"] = "[re-run through a generated induction-hypothesis twin after %s became recursive] %s" % (f, ob["desc"])
+    r2["obligations"] = hard + [ob for ob in r2["obligations"] if ob["kind"] == "cover"]
+    r2["recursion_fallback"] = f
+    r2["wall_s"] = r2.get("wall_s", 0) + res.get("wall_s", 0)
+    return r2
+
+
+def _run_proof_once(proof, tier, keep=False, backend=None):
     """Build + verify one registry entry.  Returns a result dict (never raises)."""
     t0 = time.time()
     log = []
